@@ -3,7 +3,7 @@
 SPECIFICATION Spec
 CONSTANTS
   Retries = 10
-  StrictLineCount = FALSE
+  StrictLineCount = TRUE
   AtomicDecompress = FALSE
   AtomicVerifiedTable = FALSE
   DropTableOnRewrite = FALSE
